@@ -5,6 +5,7 @@ package obs
 import (
 	"context"
 	"fmt"
+	"os"
 	"reflect"
 	"strconv"
 	"strings"
@@ -99,6 +100,35 @@ var disturber *formula.SourceCode
 
 var usedRunner *formula.Runner
 
+// usedMap is the caller's map that usedRunner holds while usedHolds is set.
+var usedMap = map[string]interface{}{}
+
+var usedHolds bool
+
+// replaying: a saved case is re-run on its own; both ways of handing data to the used runner are tried in turn.
+var replaying = os.Getenv("VERIF_REPLAY") != ""
+
+// decoy is another value of the same Go type.
+func decoy(v interface{}) interface{} {
+	switch x := v.(type) {
+	case int:
+		return x + 1
+	case int32:
+		return x + 1
+	case int64:
+		return x + 1
+	case float64:
+		return x + 1
+	case float32:
+		return x + 1
+	case string:
+		return x + "~"
+	case bool:
+		return !x
+	}
+	return v
+}
+
 var compactCache = map[string]string{}
 
 var extraCalls int
@@ -182,9 +212,37 @@ func EvalText(text string, data map[string]interface{}) EvalOut {
 				Eval(usedRunner, context.Background(), q.Expression)
 			}
 		}
-		usedRunner.SetThis(data)
+		// The data reaches that runner in one of two ways, 64 calls each in turn: as a new map through
+		// SetThis, or - the runner keeps the map it was given, and that map is the caller's - by the caller
+		// rewriting the map the runner already holds.
+		how := "was then given the same data"
+		if data != nil && ((extraCalls/64)%2 == 1 || (replaying && extraCalls%2 == 1)) {
+			if !usedHolds {
+				usedRunner.SetThis(usedMap)
+				usedHolds = true
+			}
+			// first the same names with other values (and the same formula evaluated over them) ...
+			for k := range usedMap {
+				delete(usedMap, k)
+			}
+			for k, v := range data {
+				usedMap[k] = decoy(v)
+			}
+			Eval(usedRunner, context.Background(), p.Src.Expression)
+			// ... then the caller writes this case's values over them
+			for k := range usedMap {
+				delete(usedMap, k)
+			}
+			for k, v := range data {
+				usedMap[k] = v
+			}
+			how = "whose data map the caller then rewrote to hold the same entries"
+		} else {
+			usedRunner.SetThis(data)
+			usedHolds = false
+		}
 		if c := Eval(usedRunner, context.Background(), p.Src.Expression).String(); c != a {
-			return EvalOut{Panic: fmt.Sprintf("%q evaluates to %s on a new runner, but to %s on a runner that evaluated other formulas before and was then given the same data", text, a, c)}
+			return EvalOut{Panic: fmt.Sprintf("%q evaluates to %s on a new runner, but to %s on a runner that evaluated other formulas before and %s", text, a, c, how)}
 		}
 		// Spacing is not part of the meaning: the same tokens with every optional separator removed
 		// (`a?.5:b`, `x||!y`, `1- -2`) parse and evaluate to the same outcome.
